@@ -59,6 +59,9 @@ func genTree(r *prng.R) tree {
 	if r.Chance(15) {
 		t["f/d.yaml"] = "v1" // a flow nobody probes
 	}
+	if r.Chance(8) {
+		t["f/"+prng.Pick(r, []string{"a", "b", "c"})+".yaml"] = "d" + fmt.Sprint(r.Range(1, 3)) // shares its name with every other d-flow
+	}
 	if r.Chance(10) {
 		t["q/qb.yaml"] = "q2"
 	}
@@ -125,6 +128,7 @@ const (
 	shNoop
 	shPathParamsOnly
 	shEmpty
+	shDupNames
 	nShapes
 )
 
@@ -217,6 +221,13 @@ func genPayload(r *prng.R, t tree, shape int) []item {
 		items = []item{{"p/pa.yaml", prng.Pick(r, []string{"p1", "p2", "bad"})}}
 	case shEmpty:
 		items = nil
+	case shDupNames:
+		// two pushed flow files carrying the same flow name (refused), or one joining one already in the tree
+		n := flows[0]
+		set("f/"+n+".yaml", "d"+fmt.Sprint(r.Range(1, 3)))
+		if r.Chance(70) {
+			set("f/"+flows[1]+".yaml", "d"+fmt.Sprint(r.Range(1, 3)))
+		}
 	}
 	sortItems(items)
 	return items
